@@ -1,3 +1,4 @@
+import math
 import numpy as np
 import torch
 from torch.nn import functional as F
@@ -101,9 +102,13 @@ def linear_spline(
         bin_width = 1.0 / num_bins
         logabsdet = torch.log(input_pdfs) - np.log(bin_width)
 
+    # The spline itself maps [0, 1] to [0, 1]; account for the scaling of the two boxes.
+    log_box_scale = math.log(top - bottom) - math.log(right - left)
     if inverse:
         outputs = outputs * (right - left) + left
+        logabsdet = logabsdet - log_box_scale
     else:
         outputs = outputs * (top - bottom) + bottom
+        logabsdet = logabsdet + log_box_scale
 
     return outputs, logabsdet
